@@ -20,6 +20,9 @@ def groups():
         G.append(Group('slist.step%d' % k, ['C13'], 'S', S, 'h_step', enforce=None if k in (3, 8) else fn, sources=src,
                        defines=['-DVF_STEP=%d' % k],
                        what='chain primitive %s: %s; exact relinking, count, frame = the touched links, the tail pointer and count' % (fn, txt)))
+    for k, (fn, txt) in {1: ('cstl_slist_concat', 'concat on chain neighbourhoods of 0, 1, 2 and >= 3 nodes each (unknown middle as a sentinel, any count): the source chain follows the destination\'s last node, the tail becomes the source\'s last, source left empty with its own sentinel as tail'),
+                         2: ('cstl_slist_swap', 'swap on chain neighbourhoods of 0, 1, 2 and >= 3 nodes each: chains, counts and offsets exchanged, the tail of an emptied side is its OWN head sentinel')}.items():
+        G.append(Group('slist.step2.%s' % fn[11:], ['C13'], 'S', S, 'h_step2', sources=src, defines=['-DVF_STEP2=%d' % k], unwind=6, functions=[fn], what=txt, covers=['end']))
     common = 'representation invariant (count==0 <=> t==&h <=> h.n==NULL, t->n==NULL, t is the last node reached, count nodes), ' \
              'traversal == reference sequence, front/back/size agree, and a spare push_back lands after the true last element, after every operation: '
     B = {
